@@ -155,10 +155,31 @@ def r_serret_body(body):
     out.append(body[i:])
     body2 = "".join(out)
     log = [("R-serret", "Ok(serializer)", "Ok(())  x%d" % n)] if n else []
+    # re-binding style (legacy_address): every write returns the serializer it was called on, so
+    #   `let s = s.write_a(x)?;`                                                  is  `s.write_a(x)?;`
+    #   `let s = match E { &None => s, &Some(P) => s.write_a(x)?.write_b(y)?, };`  is  `match E { &None => {}, &Some(P) => { s.write_a(x)?; s.write_b(y)?; } }`
+    kb = 0
+    while True:
+        mo = re.search(r"\blet\s+(\w+)\s*=\s*\1\s*\.(write_\w+\([^;]*\)\?)\s*;", body2)
+        if not mo or not code_mask(body2)[mo.start()]:
+            break
+        body2 = body2[:mo.start()] + "%s.%s;" % (mo.group(1), mo.group(2)) + body2[mo.end():]
+        kb += 1
+    while True:
+        mo = re.search(r"\blet\s+(\w+)\s*=\s*match\s+([^{]+?)\{\s*(&?)None\s*=>\s*\1\s*,\s*&?Some\(([^)]*)\)\s*=>\s*(\1\s*\.[^{}]*?\?)\s*,?\s*\}\s*;", body2, re.S)
+        if not mo or not code_mask(body2)[mo.start()]:
+            break
+        sname, scrut, amp, pat, chain = mo.group(1), mo.group(2).strip(), mo.group(3), mo.group(4), norm_ws(mo.group(5))
+        body2 = body2[:mo.start()] + "match %s { %sNone => {}, %sSome(%s) => { %s; } }" % (scrut, amp, amp, pat, chain) + body2[mo.end():]
+        kb += 1
+        if kb > 50:
+            raise Unsupported("R-serret: re-binding writes did not converge")
+    if kb:
+        log.append(("R-serret", "let s = s.write_a(x)?; / let s = match E { &None => s, &Some(p) => s.write..()? };", "statement form  x%d" % kb))
     # chained writes: each write returns the serializer it was called on, so `s.write_a(x)?.write_b(y)` is `s.write_a(x)?; s.write_b(y)`
     k = 0
     while True:
-        mo = re.search(r"\b(\w+)\.(write_\w+)\(([^()]*)\)\?\s*\.(write_\w+)\(", body2)
+        mo = re.search(r"\b(\w+)\s*\.\s*(write_\w+)\(([^()]*)\)\?\s*\.\s*(write_\w+)\(", body2)
         if not mo or not code_mask(body2)[mo.start()]:
             break
         body2 = body2[:mo.start()] + "%s.%s(%s)?; %s.%s(" % (mo.group(1), mo.group(2), mo.group(3), mo.group(1), mo.group(4)) + body2[mo.end():]
